@@ -5,6 +5,16 @@ Case forms (all JSON):
   {"op": "kymo"|"scan", "gen": {...}}                                 generated object (expanded deterministically)
   {"op": "kymo"|"scan", "iw": [...], "P":, ["L", "fast", "slow", "scan_count"], "channels": {...}, "lead": {...}}
                                                                       explicit object (corpus, replays)
+  {"op": "window", ...}                                               kymograph restricted to whole lines
+  {"op": "seq", "kind": "kymo"|"scan", "gen": {...} | explicit keys, "queries": [0|1|2|3|4, ...]}
+        a SEQUENCE of queries on ONE object (0,1,2 = get_image of red, green, blue; 3 = get_image("rgb");
+        4 = Kymo.shape): what an earlier query left behind (memoised images, a repaired start) is visible to the
+        later ones
+
+Channel modes beyond builders_confocal.random_channels (made here, see `local_channel`): "after" (the stream exists
+but starts at/after the end of the info wave), "before" (it ends at/before the first info-wave sample) - colours
+WITHOUT DATA IN THE SCAN although the channel is there -, "late" / "late-far" (the stream starts inside the first
+line / after it; sequences only).
 """
 import glob
 import itertools
@@ -43,6 +53,13 @@ THEOREMS = [
     "Verif.C02.scan_get_image",
     "Verif.C02.segment_reconstruct",
     "Verif.C02.segment_reconstruct_dead",
+    "Verif.C02.get_image_factors",
+    "Verif.C02.query_colour_current",
+    "Verif.C02.seq_coherent",
+    "Verif.C02.repair_discards_cache",
+    "Verif.C02.no_data_zero_current",
+    "Verif.C02.kymo_image_shape",
+    "Verif.C02.kymo_no_data_same_shape",
 ]
 RULE = (
     "corpus (documented interleaved-discard wave, non-constant samples per pixel, truncated colours) + exhaustive small "
@@ -52,14 +69,24 @@ RULE = (
     "lines<=3 and real Scan objects for P,L in {2,3}, k<=2, dead<=2, frames<=2 (+frame dead time), both fast-axis "
     "orders, metadata frame count 0 and explicit, each truncated at EVERY sample (quick: a subset of these layouts, every "
     "2nd/3rd truncation point), with a full "
-    "red (ids), an early+short green and an absent blue channel; (c) seeded random kymos/scans (85% up to 8x8x3, 12% up "
+    "red (ids), an early+short green and a blue channel that is absent, recorded only AFTER the item ended, or stopped "
+    "BEFORE it began (a colour without data in the scan although the channel exists; in a fifth of the cases green is "
+    "the one recorded after the item); (b') SEQUENCES of get_image / "
+    "rgb / Kymo.shape queries on ONE object, compared answer by answer with a stateful model (start, memoised images): "
+    "kymographs P<=3, 3-4 lines, k<=2, dead 1-2 whose photon stream starts at EVERY sample of the first line and just "
+    "behind it, the other colours absent / complete / recorded after the item / late as well, asked in every order of "
+    "a first round, then all colours and rgb once more (quick: every 37th), plus seeded random sequences on random "
+    "kymographs and scans (colours full/absent/short/long/early/after/before/late/late-far); (b'') kymographs "
+    "restricted to a window of whole lines; (c) seeded random kymos/scans (85% up to 8x8x3, 12% up "
     "to 24x24, 3% up to 64x64x5 with k<=8; constant or non-constant samples per pixel, per-line dead times, interleaved "
     "discards, lead-in, tail, truncation biased to the last line/frame/first line/around a boundary, axes drawn from "
-    "X,Y,Z pairs in both orders, colours full/absent/short/long/early/early+short, five count styles all with non-zero "
+    "X,Y,Z pairs in both orders, colours full/absent/short/long/early/early+short and (12% of the cases) after/before, "
+    "five count styles all with non-zero "
     "counts in discarded samples, three count dtypes, random start/sample period); (d) malformed stream: no pixel "
     "boundary in the (shared) span, size mismatch, photon stream of a scan starting late, inconsistent explicit frame "
     "count. Non-trivial: at least two completed pixels, a non-zero image and at least one discarded or unassigned "
-    "sample carrying counts inside the shared span (objects); at least one pixel or an error (direct sums)."
+    "sample carrying counts inside the shared span (objects); at least one pixel or an error (direct sums); a colour "
+    "answered at least twice with an image and a non-zero image (sequences)."
 )
 TRUSTED = [
     "time alignment is modelled at the sample-index level: photon streams lie on the info wave's sample grid; "
@@ -67,10 +94,18 @@ TRUSTED = [
     "float64 exactness of numpy.cumsum: photon totals stay below 2^53 (generated totals < 2^46)",
     "squeeze() is modelled for scans with at least two pixels on both axes (the property's quantifier); only the frame "
     "axis can then be squeezed away",
+    "sequences: the object's state is modelled as (start as a sample index, identity of the _cache dict, memoised colour "
+    "images); cachetools.cachedmethod stores a result in the dict it fetched before the call (C19 models the same)",
 ]
 ASSUMPTIONS = [
-    "photon streams do not start inside the scan (a Kymo would drop its first line through _fix_incorrect_start: F5 / "
-    "C19 territory); for a Scan that case is in the malformed stream (RuntimeError, compared with the model, not judged)",
+    "a photon stream that starts inside the item: a Scan raises RuntimeError (compared with the model, not judged); a "
+    "Kymo drops its truncated first line the first time that stream is read (F5 / C19: answers before and after differ). "
+    "Such kymographs occur only in the sequence cases: every answer is compared with the stateful model, and the oracle "
+    "judges them only once SETTLED (every such colour has been answered with an image): the colours without data are "
+    "zero images of the same shape as the colours whose stream reaches the end of the info wave, rgb is their stack; "
+    "which lines the settled image keeps is compared with the model (seek_timestamp_next_line), not judged",
+    "for every other object each answer of a sequence is judged like a first answer (the property speaks of THE image "
+    "of a colour: it cannot depend on what was asked before)",
     "info waves without any pixel boundary in the shared span raise IndexError: compared with the model, not judged by "
     "the oracle (the property text does not say what should happen)",
     "info-wave codes other than 0,1,2 (treated as 'use' by the code and the model) are compared with the model only",
@@ -85,11 +120,53 @@ _CACHE = {}
 # ------------------------------------------------------------------ expansion of generated cases
 
 
+LOCAL_MODES = ("after", "before", "late", "late-far")
+
+
+def second_line_start(iw, P):
+    """index of the first used sample after the last boundary of the first line (len(iw) if there is none)"""
+    nb = 0
+    for i, c in enumerate(iw):
+        if nb >= P and c != 0:
+            return i
+        if c == 2:
+            nb += 1
+    return len(iw)
+
+
+def local_channel(r, iw, P, mode, base, lateness=None):
+    """(counts, lead) of a colour in one of the LOCAL_MODES; `base` = a count for every info-wave sample"""
+    n = len(iw)
+    if mode == "after":
+        gap = r.choice([0, 0, 1, r.randint(0, 9)])
+        return [r.randint(1, 99) for _ in range(r.randint(1, 6))], -(n + gap)
+    if mode == "before":
+        ln = r.randint(1, 3)
+        return [r.randint(1, 99) for _ in range(ln)], ln + r.randint(0, 5 - ln)  # lead <= 5: see FIRST_TIMESTAMP
+    s2 = second_line_start(iw, P)
+    first_used = next((i for i, c in enumerate(iw) if c != 0), 0)
+    if lateness is not None:
+        d = int(lateness)
+    elif mode == "late":
+        d = r.choice([1, 1, 2, first_used, first_used + 1, s2 - 1, s2, r.randint(1, max(1, s2))])
+        d = min(d, s2)
+    else:
+        d = r.randint(s2 + 1, max(s2 + 1, min(n - 1, 3 * s2 + 2)))
+    d = max(1, min(d, n - 1))
+    if n < 2:
+        return None, 0
+    data = list(base[d:])
+    if r.chance(0.2):
+        data += [r.randint(1, 99) for _ in range(r.randint(1, 4))]
+    return data, -d
+
+
 def expand(case):
     """explicit form of a case (generated cases carry only their recipe)"""
     if "gen" not in case:
         return case
-    key = json.dumps(case["gen"], sort_keys=True)
+    kind = case.get("kind", case["op"])
+    key = kind + json.dumps(case["gen"], sort_keys=True)
     hit = _CACHE.get(key)
     if hit is not None:
         return hit
@@ -97,10 +174,20 @@ def expand(case):
     lay = g["layout"]
     iw = bc.layout_infowave(lay)
     r = Rng(g.get("seed", 0))
-    channels, lead = bc.random_channels(r, iw, modes=g.get("modes"), style=g.get("style"))
+    modes = g.get("modes")
+    local = {c: m for c, m in modes.items() if m in LOCAL_MODES} if isinstance(modes, dict) else {}
+    if local:
+        modes = {c: ("full" if m in LOCAL_MODES else m) for c, m in modes.items()}
+    channels, lead = bc.random_channels(r, iw, modes=modes, style=g.get("style"))
+    if local:
+        r2 = Rng(g.get("seed", 0)).fork("c02-local-modes")
+        for c in COLORS:
+            if c in local:
+                base = channels[c] if channels.get(c) and len(channels[c]) == len(iw) else bc.counts(r2, iw, "mixed")
+                channels[c], lead[c] = local_channel(r2, iw, lay["P"], local[c], base, (g.get("lateness") or {}).get(c))
     out = {
         "op": case["op"],
-        "kind": case["op"],
+        "kind": kind,
         "iw": iw,
         "P": lay["P"],
         "L": lay.get("L"),
@@ -130,6 +217,32 @@ def explicit(case):
         e = dict(e)
         e["kind"] = e["op"]
     return e
+
+
+def show_shape(shape):
+    return "[" + ",".join(str(int(v)) for v in shape) + "]"
+
+
+def impl_seq(case):
+    """the answers of a sequence of queries on ONE object, joined by ';'"""
+    e = explicit(case)
+    out = []
+    with bc.quiet():
+        try:
+            obj = bc.object_from_case(e)
+        except Exception as ex:
+            return [errname(ex)]
+        for q in case["queries"]:
+            try:
+                if q < 3:
+                    out.append(show_img(obj.get_image(COLORS[q])))
+                elif q == 3:
+                    out.append(show_img(obj.get_image("rgb")))
+                else:
+                    out.append(show_shape(obj.shape))
+            except Exception as ex:
+                out.append(errname(ex))
+    return [";".join(out)]
 
 
 # ------------------------------------------------------------------ impl
@@ -188,6 +301,8 @@ def impl_window(case):
 def impl(case):
     if case["op"] == "window":
         return impl_window(case)
+    if case["op"] == "seq":
+        return impl_seq(case)
     if case["op"] == "sum":
         from lumicks.pylake.detail.image import reconstruct_image_sum
 
@@ -245,6 +360,10 @@ def ops(case):
     iw = enc_list(e["iw"])
     lead = e.get("lead") or {}
     out = []
+    if case["op"] == "seq":
+        chans = " ".join(f"{int(lead.get(c, 0))} {enc_chan(e['channels'].get(c))}" for c in COLORS)
+        head = f"c02.kymoseq {e['P']}" if e["kind"] == "kymo" else f"c02.scanseq {e['fast']} {e['P']} {e['slow']} {e['L']}"
+        return [f"{head} {iw} {chans} {enc_list(case['queries'])}"]
     if e["kind"] == "kymo":
         for c in COLORS:
             out.append(f"c02.kymo {e['P']} {iw} {int(lead.get(c, 0))} {enc_chan(e['channels'].get(c))}")
@@ -282,7 +401,8 @@ def shared_span(e, color):
         return None
     m = int((e.get("lead") or {}).get(color, 0))
     if m < 0:
-        return "late"
+        # the stream starts |m| samples after the info wave: at/after its end -> no sample of it lies in the scan
+        return None if -m >= len(iw) else "late"
     avail = data[m:]
     n = min(len(iw), len(avail))
     if n == 0:
@@ -319,6 +439,111 @@ def show_expected(img):
     return "[" + ",".join(str(int(s)) for s in img.shape) + "] [" + ",".join(str(int(v)) for v in img.ravel()) + "]"
 
 
+def expected_colour(e, color):
+    """(expected image, clause name, expected image total | None) of one colour of an object, or None where the
+    property does not determine the answer (stream starting inside the scan, no completed pixel in the shared span)"""
+    sp = shared_span(e, color)
+    if sp == "late":
+        return None
+    if sp is None:
+        nb = bc.count_pixels(e["iw"])
+        if nb == 0:
+            return None
+        return expected_image(e, [0] * nb), "missing-colour", None
+    iw_s, d_s = sp
+    px = assigned_pixels(iw_s, d_s)
+    if not px:
+        return None  # no completed pixel in the shared span: not judged
+    # image total = total count of the used samples up to the last boundary of the shared span
+    last = max(i for i, c in enumerate(iw_s) if c == 2)
+    total = sum(int(d) for c, d in zip(iw_s[: last + 1], d_s[: last + 1]) if c != 0)
+    return expected_image(e, px), "pixel-placement", total
+
+
+def parse_img(a):
+    """'[shape] [flat]' -> (shape, flat) or None for an error name"""
+    if not a.startswith("["):
+        return None
+    sh, fl = a.split(" ")
+    return [int(v) for v in sh[1:-1].split(",") if v != ""], [int(v) for v in fl[1:-1].split(",") if v != ""]
+
+
+def stack_str(imgs):
+    """the rgb image of three (shape, flat) colour images of one shape, as show_img prints it"""
+    sh = imgs[0][0]
+    flat = [v for px in zip(imgs[0][1], imgs[1][1], imgs[2][1]) for v in px]
+    return show_shape(list(sh) + [3]) + " [" + ",".join(map(str, flat)) + "]"
+
+
+def oracle_seq(case, ia):
+    """A sequence of queries on one object.  The property speaks of THE image of a colour of an item: whatever was
+    asked before, (1) for an item whose photon streams do not start inside it every answer is the image the property
+    determines (pixel sums of the shared span / zeros of the info wave's shape for a colour without data in the scan),
+    the rgb image is the stack of the three and Kymo.shape their shape; (2) for a kymograph with a stream that starts
+    inside it (the library drops the truncated first line the first time that stream is read: F5, not judged here)
+    the answers are judged once the item has SETTLED - after every such colour has been answered with an image -:
+    colours without data in the scan are zero images of the same shape as the colours whose stream reaches the end of
+    the info wave, and the rgb image is their stack."""
+    e = explicit(case)
+    if any(c > 2 for c in e["iw"]):
+        return None
+    Q = case["queries"]
+    ans = ia[0].split(";")
+    if len(ans) != len(Q):
+        return None  # the object could not even be made: compared with the model only
+    spans = {c: shared_span(e, c) for c in COLORS}
+    late = [c for c in COLORS if spans[c] == "late"]
+    if e["kind"] == "scan" or not late:
+        exp = {}
+        for c in COLORS:
+            x = expected_colour(e, c)
+            exp[c] = None if x is None else (show_expected(x[0]), x[1])
+        for i, (q, a) in enumerate(zip(Q, ans)):
+            if q < 3:
+                x = exp[COLORS[q]]
+                if x is not None and a != x[0]:
+                    return (f"{x[1]}: query #{i} of the sequence {Q} on one object: {COLORS[q]} image is {a[:200]}, "
+                            f"expected {x[0][:200]}")
+            elif q == 3:
+                if late or any(exp[c] is None for c in COLORS):
+                    continue
+                imgs = [parse_img(exp[c][0]) for c in COLORS]
+                if imgs[0][0] == imgs[1][0] == imgs[2][0] and a != stack_str(imgs):
+                    return f"pixel-placement: query #{i} of the sequence {Q}: rgb image is {a[:200]}, expected {stack_str(imgs)[:200]}"
+            elif exp["red"] is not None:
+                want = show_shape(parse_img(exp["red"][0])[0] + [3])
+                if a != want:
+                    return f"shape: query #{i} of the sequence {Q}: Kymo.shape = {a}, expected {want}"
+        return None
+    # kymograph with a stream starting inside it: judged once settled
+    if len(Q) < 4 or list(Q[-4:]) != [0, 1, 2, 3]:
+        return None
+    body_q, body_a = Q[:-4], ans[:-4]
+    for c in late:
+        ci = COLORS.index(c)
+        if not any(q == ci and a.startswith("[") for q, a in zip(body_q, body_a)):
+            return None  # not settled
+    fin = [parse_img(a) for a in ans[-4:-1]]
+    if any(f is None for f in fin):
+        return None
+    n = len(e["iw"])
+    reaches_end = {
+        c: bool(e["channels"].get(c)) and len(e["channels"][c]) - int((e.get("lead") or {}).get(c, 0)) >= n for c in COLORS
+    }
+    judged = [i for i, c in enumerate(COLORS) if spans[c] is None or reaches_end[c]]
+    for i in judged:
+        c = COLORS[i]
+        if spans[c] is None and any(fin[i][1]):
+            return f"missing-colour: sequence {Q}: {c} has no data in the kymograph but its image is not zero: {ans[-4 + i][:200]}"
+        if fin[i][0] != fin[judged[0]][0]:
+            return (f"missing-colour: sequence {Q} on one kymograph: in the end the {c} image has shape {fin[i][0]} but the "
+                    f"{COLORS[judged[0]]} image has shape {fin[judged[0]][0]} (a colour without data is a zero image of the "
+                    f"SAME shape; every colour is read from the same info wave)")
+    if len(judged) == 3 and ans[-1] != stack_str(fin):
+        return f"pixel-placement: sequence {Q}: the final rgb image {ans[-1][:200]} is not the stack of the three colour images"
+    return None
+
+
 def oracle(case, ia):
     if case["op"] == "window":
         # every colour of the time-restricted item has the shape of the restricted info wave; a colour without data is
@@ -352,6 +577,8 @@ def oracle(case, ia):
         if ia[0] != exp:
             return f"pixel-sums: reconstruct_image_sum gave {ia[0][:200]}, the samples assigned to each pixel sum to {exp[:200]}"
         return None
+    if case["op"] == "seq":
+        return oracle_seq(case, ia)
     e = explicit(case)
     if any(c > 2 for c in e["iw"]):
         return None
@@ -359,29 +586,14 @@ def oracle(case, ia):
     ppf = P * (L or 1)
     red_shape = None
     for ci, color in enumerate(COLORS):
-        sp = shared_span(e, color)
-        if sp == "late":
+        x = expected_colour(e, color)
+        if x is None:
             continue
-        if sp is None:
-            nb = bc.count_pixels(e["iw"])
-            if nb == 0:
-                continue
-            exp_img = expected_image(e, [0] * nb)
-            clause = "missing-colour"
-        else:
-            iw_s, d_s = sp
-            px = assigned_pixels(iw_s, d_s)
-            if not px:
-                continue  # no completed pixel in the shared span: not judged
-            exp_img = expected_image(e, px)
-            clause = "pixel-placement"
-            # image total = total count of the used samples up to the last boundary of the shared span
-            last = max(i for i, c in enumerate(iw_s) if c == 2)
-            total = sum(int(d) for c, d in zip(iw_s[: last + 1], d_s[: last + 1]) if c != 0)
-            if not ia[ci].endswith("Error") and ia[ci].startswith("["):
-                got_total = sum(int(v) for v in ia[ci].split(" ")[1][1:-1].split(",") if v != "")
-                if got_total != total:
-                    return f"conservation: {color} image total {got_total} != total count {total} of the used samples"
+        exp_img, clause, total = x
+        if total is not None and ia[ci].startswith("["):
+            got_total = sum(int(v) for v in ia[ci].split(" ")[1][1:-1].split(",") if v != "")
+            if got_total != total:
+                return f"conservation: {color} image total {got_total} != total count {total} of the used samples"
         if ci == 0:
             red_shape = exp_img.shape
         exp = show_expected(exp_img)
@@ -413,6 +625,13 @@ def nontrivial(case, ia):
         return True
     if case["op"] == "sum":
         return ia[0].endswith("Error") or bc.count_pixels(case["iw"]) >= 1
+    if case["op"] == "seq":
+        # some colour is answered twice with an image, and some image is non-zero
+        Q, ans = case["queries"], ia[0].split(";")
+        if len(ans) != len(Q):
+            return False
+        twice = any(sum(1 for q, a in zip(Q, ans) if q == c and a.startswith("[")) >= 2 for c in range(3))
+        return twice and any(" " in a and any(ch not in "[], 0" for ch in a.split(" ")[1]) for a in ans)
     e = explicit(case)
     for ci, color in enumerate(COLORS):
         sp = shared_span(e, color)
@@ -435,6 +654,8 @@ def tags(case, r):
     if case["op"] != "sum":
         e = explicit(case)
         t["kind"] = e["kind"]
+    if case["op"] == "seq":
+        t["stream_starts_inside_item"] = any(shared_span(e, c) == "late" for c in COLORS)
     return t
 
 
@@ -456,6 +677,11 @@ def shrink(case):
             c["shape"] = [1]
             yield c
         return
+    if case["op"] == "seq":
+        Q = case["queries"]
+        keep_tail = 4 if len(Q) >= 4 and list(Q[-4:]) == [0, 1, 2, 3] else 0
+        for i in range(len(Q) - keep_tail):
+            yield dict(case, queries=Q[:i] + Q[i + 1 :])
     if "gen" in case:
         g = case["gen"]
         lay = g["layout"]
@@ -540,6 +766,24 @@ def corpus_cases():
     yield {"stream": "corpus", "op": "kymo", "iw": iw, "P": 2, "fast": 1,
            "channels": {"red": [50, 60, 70] + [1 << i for i in range(len(iw))] + [80, 90], "green": None, "blue": [5, 6]},
            "lead": {"red": 3}}
+    # a colour whose channel exists but holds no sample inside the item: recorded only after it ended (blue), stopped
+    # before it began (green); kymograph and scan
+    iw = [0, 1, 2, 1, 2, 0, 0, 1, 2, 1, 2, 0, 0, 1, 2, 1, 2, 0]
+    yield {"stream": "corpus", "op": "kymo", "iw": iw, "P": 2, "fast": 0,
+           "channels": {"red": [1 << i for i in range(len(iw))], "green": [7, 8], "blue": [5, 6, 7]},
+           "lead": {"green": 2, "blue": -len(iw)}}
+    iw = [2, 2, 0, 2, 2, 0, 0, 2, 2, 0, 2]
+    yield {"stream": "corpus", "op": "scan", "iw": iw, "P": 2, "L": 2, "fast": 1, "slow": 0, "scan_count": 0,
+           "channels": {"red": [9, 9, 9], "green": [1 << i for i in range(len(iw))], "blue": [5, 6, 7]},
+           "lead": {"red": 4, "blue": -len(iw) - 3}}
+    # sequences on one kymograph whose only photon stream (green) starts inside the first line: an empty colour is asked
+    # first, then green (first-line repair), then everything again
+    iw = [0, 1, 2, 1, 2, 1, 2, 0, 0, 1, 2, 1, 2, 1, 2, 0, 0, 1, 2, 1, 2, 1, 2, 0, 0, 1, 2, 1, 2, 1, 2, 0, 0]
+    cnt = [1 << (i % 20) for i in range(len(iw))]
+    for late, qs in ((2, [0, 1, 0, 1, 2, 3]), (4, [2, 4, 1, 1, 0, 1, 2, 3]), (9, [3, 0, 1, 2, 3]), (12, [0, 1, 1, 0, 1, 2, 3])):
+        yield {"stream": "corpus", "op": "seq", "kind": "kymo", "iw": iw, "P": 3, "fast": 0,
+               "channels": {"red": None, "green": cnt[late:], "blue": [3, 4]}, "lead": {"green": -late, "blue": -len(iw)},
+               "queries": qs}
     # a single boundary as the very last sample; nothing but discards
     yield {"stream": "corpus", "op": "sum", "data": [3, 4, 5], "iw": [0, 1, 2], "shape": [4]}
     yield {"stream": "malformed", "op": "sum", "data": [3, 4, 5], "iw": [0, 0, 0], "shape": [1]}
@@ -565,10 +809,79 @@ def window_cases(rng, n):
         yield {"stream": "window", "op": "window", "P": P, "iw": iw, "channels": channels, "l0": l0, "l1": l1, "subseed": i}
 
 
+SEQ_TAIL = [0, 1, 2, 3]  # every generated sequence ends by asking the three colours and rgb once more
+PERMS = [list(p) for p in itertools.permutations((0, 1, 2))]
+
+
+def seq_small_scope(quick):
+    """kymographs whose photon stream(s) start(s) at EVERY sample of the first line (and just after it), the other
+    colours absent / complete / recorded after the item, asked in every order of a first round, then once more"""
+    others = [("absent", "absent"), ("full", "absent"), ("absent", "after"), ("after", "full"), ("late", "absent")]
+    i = 0
+    for P in (1, 2, 3):
+        for lines in (3, 4):
+            for k in (1, 2):
+                for dead in (1, 2):
+                    for lead_in in (0, 1):
+                        lay = {"P": P, "L": None, "lines": lines, "k": k, "lead_in": lead_in, "dead": dead, "trunc": None}
+                        s2 = second_line_start(bc.layout_infowave(lay), P)
+                        for lc in range(3):
+                            for d in range(1, s2 + 2):
+                                for oi, om in enumerate(others):
+                                    for pi, perm in enumerate(PERMS):
+                                        i += 1
+                                        if quick and i % 37 != 0:
+                                            continue
+                                        rest = [c for c in range(3) if c != lc]
+                                        modes = {COLORS[lc]: "late", COLORS[rest[0]]: om[0], COLORS[rest[1]]: om[1]}
+                                        lateness = {c: (d if c == COLORS[lc] else 1 + (d + oi) % s2) for c, m in modes.items() if m == "late"}
+                                        mid = [[], [lc], [3], [4, lc]][(i // 37 if quick else i) % 4]
+                                        yield {"stream": "seq-small-scope", "kind": "kymo", "queries": perm + mid + SEQ_TAIL,
+                                               **gen_case("seq", lay, i, modes=modes, lateness=lateness, style="ids", fast=i % 3)}
+
+
+SEQ_MODES = ["full", "full", "absent", "absent", "short", "long", "early", "early+short", "after", "before"]
+
+
+def seq_random(rng, n):
+    """random sequences of queries on random objects; about half of the kymographs have a stream that starts inside
+    the first line ("late") or beyond it ("late-far")"""
+    for i in range(n):
+        sub = rng.fork(("seq", i))
+        kind = sub.choice(["kymo", "kymo", "scan"])
+        lay = bc.random_layout(sub, kind, max_p=6, max_l=6, max_frames=2, max_k=3)
+        fast, slow = sub.choice(AXIS_PAIRS)
+        modes = {c: sub.choice(SEQ_MODES) for c in COLORS}
+        nlate = 0
+        if sub.chance(0.55 if kind == "kymo" else 0.15):
+            if kind == "kymo" and lay["lines"] < 3:
+                lay["lines"] += 2
+            for c in sub.sample(COLORS, sub.choice([1, 1, 2])):
+                modes[c] = sub.choice(["late", "late", "late", "late-far"])
+                nlate += 1
+        qs = sub.sample([0, 1, 2], sub.choice([1, 2, 3, 3, 3]))
+        kinds = [0, 1, 2, 3] + ([4] if kind == "kymo" else [])
+        qs += [sub.choice(kinds) for _ in range(sub.randint(0, 4))]
+        for c in COLORS:  # a stream beyond the first line needs more than one access before it yields an image
+            if modes[c] == "late-far":
+                qs += [COLORS.index(c)] * sub.randint(1, 3)
+        if sub.chance(0.85):
+            qs += SEQ_TAIL
+        dt = sub.choice([bc.DT, 1, 7, sub.randint(1, 10**6)])
+        g = dict(fast=fast, slow=slow, modes=modes, dt=dt,
+                 start=sub.choice([bc.START, bc.FIRST_TIMESTAMP + 5 * dt + sub.randint(0, 10**9)]),
+                 count_dtype=sub.choice(["int64", "uint32"]))
+        if sub.chance(0.3):
+            g["style"] = "ids"
+        yield {"stream": "seq-random", "subseed": i, "kind": kind, "queries": qs, **gen_case("seq", lay, sub.next() >> 1, **g)}
+
+
 def cases(tier, rng):
     quick = tier == "quick"
     yield from corpus_cases()
     yield from window_cases(rng.fork("c02-window"), 120 if quick else 3000)
+    yield from seq_small_scope(quick)
+    yield from seq_random(rng.fork("c02-seq"), 500 if quick else 8000)
 
     # ---- (a) every info wave over {0,1,2} up to a length, direct call
     maxn = 6 if quick else 8
@@ -588,7 +901,14 @@ def cases(tier, rng):
         yield {"stream": "malformed", "op": "sum", "data": [1] * nd, "iw": ([1, 2] * 3)[:ni], "shape": [1]}
 
     # ---- (b) small real objects, truncated at every sample
-    modes = {"red": "full", "green": "early+short", "blue": "absent"}
+    # blue: no channel at all / a channel recorded only after the item / one that stopped before it began
+    mode_variants = [
+        {"red": "full", "green": "early+short", "blue": "absent"},
+        {"red": "full", "green": "early+short", "blue": "after"},
+        {"red": "full", "green": "early+short", "blue": "absent"},
+        {"red": "full", "green": "after", "blue": "before"},
+        {"red": "full", "green": "early+short", "blue": "absent"},
+    ]
     style = {"red": "ids", "green": "loud", "blue": "mixed"}
     stride = 2 if quick else 1
     sd = 0
@@ -603,7 +923,7 @@ def cases(tier, rng):
                         n = len(bc.layout_infowave(lay))
                         for t in list(range(1, n, stride)) + [None]:
                             sd += 1
-                            yield {"stream": "small-scope", **gen_case("kymo", dict(lay, trunc=t), sd, modes=modes, style=style, fast=sd % 3)}
+                            yield {"stream": "small-scope", **gen_case("kymo", dict(lay, trunc=t), sd, modes=mode_variants[sd % 5], style=style, fast=sd % 3)}
     stride = 3 if quick else 1
     for P in (2, 3):
         for L in (2, 3):
@@ -619,7 +939,7 @@ def cases(tier, rng):
                             for t in list(range(1, n, stride)) + [None]:
                                 sd += 1
                                 yield {"stream": "small-scope", **gen_case(
-                                    "scan", dict(lay, trunc=t), sd, modes=modes, style=style, fast=fast, slow=slow,
+                                    "scan", dict(lay, trunc=t), sd, modes=mode_variants[sd % 5], style=style, fast=fast, slow=slow,
                                     scan_count=("true" if sd % 2 else 0))}
 
     # ---- (c) seeded random objects (the few large ones come last: see the end of this function)
@@ -649,7 +969,12 @@ def cases(tier, rng):
         )
         if sub.chance(0.25):
             g["style"] = "ids"
-        c = {"stream": "random", "subseed": i, **gen_case(op, lay, sub.next() >> 1, **g)}
+        case_seed = sub.next() >> 1
+        if sub.chance(0.12):
+            # explicit colour modes including channels that exist but hold no sample inside the item
+            g["modes"] = {c: sub.choice(SEQ_MODES) for c in COLORS}
+            g["modes"][sub.choice(COLORS)] = sub.choice(["after", "before"])
+        c = {"stream": "random", "subseed": i, **gen_case(op, lay, case_seed, **g)}
         if size < p_large:
             c["stream"] = "random-large"
             large.append(c)
@@ -704,6 +1029,7 @@ def extra_coverage(results):
     pix_hist = {"0": 0, "1-9": 0, "10-99": 0, "100-999": 0, "1000+": 0}
     k_nonconst = dead_per_line = intra = trunc = flip = explicit_frames = partial_last = lead_in = 0
     max_samples = max_pixels = 0
+    seq_n = seq_queries = seq_repaired = seq_hits = 0
     for r in results:
         c = r["case"]
         kinds[c["op"] + "/" + c.get("stream", "?")] = kinds.get(c["op"] + "/" + c.get("stream", "?"), 0) + 1
@@ -712,6 +1038,13 @@ def extra_coverage(results):
                 errs[a] = errs.get(a, 0) + 1
         if c["op"] == "window":
             continue
+        if c["op"] == "seq":
+            seq_n += 1
+            seq_queries += len(c["queries"])
+            ans = r["impl"][0].split(";")
+            imgs = {a.split(" ")[0] for q, a in zip(c["queries"], ans) if q < 3 and " " in a}
+            seq_repaired += 1 if len(imgs) > 1 else 0
+            seq_hits += sum(max(0, sum(1 for q, a in zip(c["queries"], ans) if q == col and " " in a) - 1) for col in range(3))
         if c["op"] == "sum":
             n = bc.count_pixels(c["iw"])
         else:
@@ -736,7 +1069,9 @@ def extra_coverage(results):
                 if not d:
                     key = "absent"
                 elif m < 0:
-                    key = "late"
+                    key = "after" if -m >= len(e["iw"]) else "late"
+                elif m >= len(d):
+                    key = "before"
                 else:
                     ln = len(d) - m
                     key = ("early+" if m > 0 else "") + ("short" if ln < len(e["iw"]) else "long" if ln > len(e["iw"]) else "full")
@@ -759,6 +1094,10 @@ def extra_coverage(results):
         "unfinished_last_line_or_frame": partial_last,
         "scans_fast_axis_higher": flip,
         "scans_explicit_frame_count": explicit_frames,
+        "sequence_cases": seq_n,
+        "sequence_queries": seq_queries,
+        "sequence_repeated_colour_answers": seq_hits,
+        "sequences_where_a_colour_changed_shape": seq_repaired,
         "exhaustive": False,
         "exhaustive_note": "the small-scope streams enumerate their finite spaces completely (thorough tier; the quick "
         "tier strides them); the random streams do not",
